@@ -56,6 +56,9 @@ func (vfs *MemFS) Base(path string) string {
 func (vfs *MemFS) Chdir(dir string) error {
 	const op = "chdir"
 
+	vfs.treeMu.RLock()
+	defer vfs.treeMu.RUnlock()
+
 	_, child, pi, err := vfs.searchNode(dir, slmEval)
 	if err != vfs.err.FileExists {
 		return &fs.PathError{Op: op, Path: dir, Err: err}
@@ -104,6 +107,9 @@ func (vfs *MemFS) Chdir(dir string) error {
 func (vfs *MemFS) Chmod(name string, mode fs.FileMode) error {
 	const op = "chmod"
 
+	vfs.treeMu.RLock()
+	defer vfs.treeMu.RUnlock()
+
 	_, child, _, err := vfs.searchNode(name, slmEval)
 	if err != vfs.err.FileExists || child == nil {
 		return &fs.PathError{Op: op, Path: name, Err: err}
@@ -129,6 +135,9 @@ func (vfs *MemFS) Chmod(name string, mode fs.FileMode) error {
 func (vfs *MemFS) Chown(name string, uid, gid int) error {
 	const op = "chown"
 
+	vfs.treeMu.RLock()
+	defer vfs.treeMu.RUnlock()
+
 	if (vfs.HasFeature(avfs.FeatIdentityMgr) && !vfs.User().IsAdmin()) || vfs.OSType() == avfs.OsWindows {
 		return &fs.PathError{Op: op, Path: name, Err: vfs.err.OpNotPermitted}
 	}
@@ -153,6 +162,9 @@ func (vfs *MemFS) Chown(name string, uid, gid int) error {
 // If there is an error, it will be of type *PathError.
 func (vfs *MemFS) Chtimes(name string, _, mtime time.Time) error {
 	const op = "chtimes"
+
+	vfs.treeMu.RLock()
+	defer vfs.treeMu.RUnlock()
 
 	_, child, _, err := vfs.searchNode(name, slmEval)
 	if err != vfs.err.FileExists || child == nil {
@@ -235,6 +247,9 @@ func (vfs *MemFS) Dir(path string) string {
 func (vfs *MemFS) EvalSymlinks(path string) (string, error) {
 	const op = "lstat"
 
+	vfs.treeMu.RLock()
+	defer vfs.treeMu.RUnlock()
+
 	_, _, pi, err := vfs.searchNode(path, slmEval)
 	if err != vfs.err.FileExists {
 		return "", &fs.PathError{Op: op, Path: pi.LeftPart(), Err: err}
@@ -300,6 +315,9 @@ func (vfs *MemFS) Join(elem ...string) string {
 func (vfs *MemFS) Lchown(name string, uid, gid int) error {
 	const op = "lchown"
 
+	vfs.treeMu.RLock()
+	defer vfs.treeMu.RUnlock()
+
 	if (vfs.HasFeature(avfs.FeatIdentityMgr) && !vfs.User().IsAdmin()) || vfs.OSType() == avfs.OsWindows {
 		return &fs.PathError{Op: op, Path: name, Err: vfs.err.OpNotPermitted}
 	}
@@ -320,6 +338,9 @@ func (vfs *MemFS) Lchown(name string, uid, gid int) error {
 // If there is an error, it will be of type *LinkError.
 func (vfs *MemFS) Link(oldname, newname string) error {
 	const op = "link"
+
+	vfs.treeMu.Lock()
+	defer vfs.treeMu.Unlock()
 
 	_, oChild, _, oerr := vfs.searchNode(oldname, slmLstat)
 	if oerr != vfs.err.FileExists || oChild == nil {
@@ -376,6 +397,9 @@ func (vfs *MemFS) Lstat(path string) (fs.FileInfo, error) {
 		op = "CreateFile"
 	}
 
+	vfs.treeMu.RLock()
+	defer vfs.treeMu.RUnlock()
+
 	_, child, _, err := vfs.searchNode(path, slmLstat)
 	if err != vfs.err.FileExists || child == nil {
 		return nil, &fs.PathError{Op: op, Path: path, Err: err}
@@ -420,6 +444,9 @@ func (vfs *MemFS) Match(pattern, name string) (matched bool, err error) {
 func (vfs *MemFS) Mkdir(name string, perm fs.FileMode) error {
 	const op = "mkdir"
 
+	vfs.treeMu.Lock()
+	defer vfs.treeMu.Unlock()
+
 	if name == "" {
 		return &fs.PathError{Op: op, Path: "", Err: vfs.err.NoSuchDir}
 	}
@@ -455,6 +482,9 @@ func (vfs *MemFS) Mkdir(name string, perm fs.FileMode) error {
 // and returns nil.
 func (vfs *MemFS) MkdirAll(path string, perm fs.FileMode) error {
 	const op = "mkdir"
+
+	vfs.treeMu.Lock()
+	defer vfs.treeMu.Unlock()
 
 	parent, child, pi, err := vfs.searchNode(path, slmEval)
 	switch child.(type) {
@@ -523,6 +553,14 @@ func (vfs *MemFS) OpenFile(name string, flag int, perm fs.FileMode) (avfs.File, 
 
 	at := int64(0)
 	om := avfs.ToOpenMode(flag)
+
+	if om&(avfs.OpenCreate|avfs.OpenTruncate) != 0 {
+		vfs.treeMu.Lock()
+		defer vfs.treeMu.Unlock()
+	} else {
+		vfs.treeMu.RLock()
+		defer vfs.treeMu.RUnlock()
+	}
 
 	slm := slmEval
 	if om&avfs.OpenCreateExcl != 0 {
@@ -641,6 +679,9 @@ func (vfs *MemFS) ReadFile(name string) ([]byte, error) {
 func (vfs *MemFS) Readlink(name string) (string, error) {
 	const op = "readlink"
 
+	vfs.treeMu.RLock()
+	defer vfs.treeMu.RUnlock()
+
 	_, child, _, err := vfs.searchNode(name, slmLstat)
 	if err != vfs.err.FileExists {
 		return "", &fs.PathError{Op: op, Path: name, Err: err}
@@ -675,6 +716,9 @@ func (vfs *MemFS) Rel(basepath, targpath string) (string, error) {
 // If there is an error, it will be of type *PathError.
 func (vfs *MemFS) Remove(name string) error {
 	const op = "remove"
+
+	vfs.treeMu.Lock()
+	defer vfs.treeMu.Unlock()
 
 	parent, child, pi, err := vfs.searchNode(name, slmLstat)
 	if err != vfs.err.FileExists || child == nil {
@@ -720,6 +764,9 @@ func (vfs *MemFS) Remove(name string) error {
 // If there is an error, it will be of type *PathError.
 func (vfs *MemFS) RemoveAll(path string) error {
 	const op = "unlinkat"
+
+	vfs.treeMu.Lock()
+	defer vfs.treeMu.Unlock()
 
 	if path == "" {
 		// fail silently to retain compatibility with previous behavior of RemoveAll.
@@ -797,6 +844,9 @@ func (vfs *MemFS) removeAll(parent *dirNode) error {
 // If there is an error, it will be of type *LinkError.
 func (vfs *MemFS) Rename(oldpath, newpath string) error {
 	const op = "rename"
+
+	vfs.treeMu.Lock()
+	defer vfs.treeMu.Unlock()
 
 	oParent, oChild, oPI, oErr := vfs.searchNode(oldpath, slmLstat)
 	if oErr != vfs.err.FileExists {
@@ -926,6 +976,9 @@ func (vfs *MemFS) Stat(path string) (fs.FileInfo, error) {
 		op = "CreateFile"
 	}
 
+	vfs.treeMu.RLock()
+	defer vfs.treeMu.RUnlock()
+
 	_, child, _, err := vfs.searchNode(path, slmStat)
 	if err != vfs.err.FileExists || child == nil {
 		return nil, &fs.PathError{Op: op, Path: path, Err: err}
@@ -939,6 +992,9 @@ func (vfs *MemFS) Stat(path string) (fs.FileInfo, error) {
 // Sub returns an FS corresponding to the subtree rooted at dir.
 func (vfs *MemFS) Sub(dir string) (avfs.VFS, error) {
 	const op = "sub"
+
+	vfs.treeMu.RLock()
+	defer vfs.treeMu.RUnlock()
 
 	_, child, _, err := vfs.searchNode(dir, slmEval)
 	if err != vfs.err.FileExists || child == nil {
@@ -960,6 +1016,9 @@ func (vfs *MemFS) Sub(dir string) (avfs.VFS, error) {
 // If there is an error, it will be of type *LinkError.
 func (vfs *MemFS) Symlink(oldname, newname string) error {
 	const op = "symlink"
+
+	vfs.treeMu.Lock()
+	defer vfs.treeMu.Unlock()
 
 	parent, _, pi, nerr := vfs.searchNode(newname, slmLstat)
 	if !vfs.isNotExist(nerr) || !pi.IsLast() {
@@ -1011,6 +1070,9 @@ func (*MemFS) ToSysStat(info fs.FileInfo) avfs.SysStater {
 // If there is an error, it will be of type *PathError.
 func (vfs *MemFS) Truncate(name string, size int64) error {
 	op := "truncate"
+
+	vfs.treeMu.RLock()
+	defer vfs.treeMu.RUnlock()
 
 	if size < 0 && vfs.OSType() != avfs.OsWindows {
 		// truncate(2) rejects a negative size before looking up the file.
